@@ -147,9 +147,16 @@ class Plan:
                             (isinstance(v, N.Name) and v.name in self.global_taint)):
                         self.global_taint.add(a.target.name)
                         changed = True
+        # a template outside the supported subset fails the template plan (C13) only: the attribute guards of the
+        # metadata templates (C15) are scanned separately (emit_guards)
+        self.plan_error = None
         for name in sorted(self.asts):
-            self.check_derived(name, self.asts[name])
-            self.templates[name] = TemplateWalker(self, name).run()
+            try:
+                self.check_derived(name, self.asts[name])
+                self.templates[name] = TemplateWalker(self, name).run()
+            except Unsupported as e:
+                if self.plan_error is None:
+                    self.plan_error = e
 
     def check_derived(self, name, tree):
         """Containers filled from the sets (ds_ops, er_ops, clock_type_c_types) may only be looked up."""
@@ -742,8 +749,26 @@ def main():
     try:
         plan = Plan(repo)
         py = scan_python(repo)
-        emit_plan(plan, py, outdir, repo)
-        emit_guards(plan, outdir, repo)
+        failed = []
+        if plan.plan_error is not None:
+            failed.append(('TemplatePlan', plan.plan_error))
+        else:
+            try:
+                emit_plan(plan, py, outdir, repo)
+            except Unsupported as e:
+                failed.append(('TemplatePlan', e))
+        try:
+            emit_guards(plan, outdir, repo)
+        except Unsupported as e:
+            failed.append(('MetaGuards', e))
+        for out, e in failed:
+            # fail closed, per output: the file becomes a stub and every theorem that depends on it breaks
+            with open(os.path.join(outdir, out + '.v'), 'w') as f:
+                f.write('(* translator j2coq.py failed (fail closed): %s *)\nDefinition translation_failed_%s := tt.\n'
+                        % (str(e).replace('*)', '* )'), out))
+            print('j2coq: unsupported construct (fail closed), Gen/%s.v is a stub: %s' % (out, e))
+        if len(failed) == 2:
+            return 1
     except Unsupported as e:
         print('j2coq: unsupported construct (fail closed): %s' % e)
         return 1
